@@ -546,6 +546,20 @@ PREFIX_EDITS = ["CVSS:3.0/", "CVSS:3.1/", "CVSS:4.0/", "CVSS:3.2/", "CVSS:2.0/",
 ALPHABET = "AVCNLHPXSEMRUITDOFWY:/.0123456789 acnlx_-\t"
 
 
+ENCLOSURES = [("(", ")"), ("[", "]"), ('"', '"'), ("'", "'"), ("<", ">"), ("{", "}"), ("`", "`"), ("( ", " )"), ("\u201c", "\u201d")]
+
+
+def structural_battery(ver, rng, n_edits=40):
+    """a deterministic battery of near-valid strings: one vector in every enclosure (the way prose, feeds and shells quote it),
+    with and without optional metrics, plus `n_edits` random single edits"""
+    out = []
+    for p_absent in (1.0, 0.3):
+        s = rand_vector(ver, rng, p_absent=p_absent)
+        out += [l + s + r for l, r in ENCLOSURES] + [l + s for l, _ in ENCLOSURES[:4]] + [s + r for _, r in ENCLOSURES[:4]]
+        out += [edit(s, rng, ver) for _ in range(n_edits // 2)]
+    return out
+
+
 def edit(s, rng, ver):
     """one edit of the kinds named in C04"""
     kind = rng.randrange(21)
@@ -627,7 +641,7 @@ def edit(s, rng, ver):
                         m + ":", m, m.lower() + ":" + rng.choice(vals), m + ":" + rng.choice(vals).lower()])
         return "/".join(fields[:i] + [f] + fields[i:])
     if kind == 20:  # the vector enclosed the way prose, feeds and shells quote it
-        l, r = rng.choice([("(", ")"), ("[", "]"), ('"', '"'), ("'", "'"), ("<", ">"), ("{", "}"), ("`", "`"), ("( ", " )"), ("\u201c", "\u201d")])
+        l, r = rng.choice(ENCLOSURES)
         return l + s + r
     if kind == 18 and fields:  # another letter case of a whole metric or value token of the vector itself
         i = rng.randrange(len(fields))
